@@ -545,7 +545,8 @@ def _run_static(case, sim, out, stats, log):
                 break
             if sim.seq == b:
                 out.append(viol("C15", "non-static", "no-draws-on-call", ""))
-            if prev is not None and torch.equal(prev, t) and not case.get("fault"):
+            if prev is not None and torch.equal(prev, t) and not case.get("fault") \
+                    and node["s"] == "leaf" and node.get("n"):
                 out.append(viol("C15", "non-static", "same-points-twice", ""))
             prev = t
             stats["ops_judged"] = stats.get("ops_judged", 0) + 1
